@@ -23,7 +23,7 @@ BOUNDS = {
     "quick": "LV(3,3) (85 arrays): all 1-D selectors (ints as int/np.int64/0-d array, slices with bounds in [-(n+1),n+1] "
              "and steps None,+-1,+-2,+-3, lists/arrays of length<=2, all masks, wrong-length masks, out-of-range lists, "
              "1-tuples) ; pairs (row selector from the reduced set P(n)) x (every column int in [-(m+1),m], every column "
-             "slice with bounds in [-(m+1),m+1], steps None,+-1,+-2,+-3); 3-tuples with embedded Ellipsis; dtype pass",
+             "slice with bounds in [-(m+1),m+1], steps None,+-1,+-2,+-3); 3-tuples with embedded Ellipsis; dtype pass; boolean masks also as plain lists of bools; a 16-row array with 13 x 13 selector pairs; the indexed array re-read after every case",
     "thorough": "LV(4,3) u LV(2,5): same grammar with steps up to +-4 and the full row-selector set in pairs for n<=2",
 }
 
